@@ -34,19 +34,20 @@ class Seq:
 
 
 class Opt:
-    __slots__ = ('some',)
+    __slots__ = ('some', 'inner')
 
-    def __init__(self, some):
+    def __init__(self, some, inner=None):
         self.some = some  # True / False / None(unknown)
+        self.inner = inner  # Seq when the payload is an array / sequence (Option<[T; n]>), else None
 
     def __eq__(self, o):
-        return isinstance(o, Opt) and o.some == self.some
+        return isinstance(o, Opt) and o.some == self.some and o.inner == self.inner
 
     def __hash__(self):
-        return hash(('opt', self.some))
+        return hash(('opt', self.some, self.inner))
 
     def __repr__(self):
-        return 'Opt(%s)' % self.some
+        return 'Opt(%s%s)' % (self.some, '' if self.inner is None else ', %r' % (self.inner,))
 
 
 class Skel:
@@ -90,7 +91,8 @@ class Skel:
         if k == 'child':
             return self.child_value
         if k == 'some':
-            return Opt(True)
+            pv = self.ev(t[1])
+            return Opt(True, pv if isinstance(pv, Seq) else None)
         if k == 'none':
             return Opt(False)
         if k == 'is_some':
@@ -108,6 +110,9 @@ class Skel:
                     return self.ev(('payload', inner[3]))
             if inner[0] == 'some':
                 return self.ev(inner[1])
+            iv = self.ev(inner)
+            if isinstance(iv, Opt) and iv.inner is not None:
+                return iv.inner
             return F
         if k == 'phi':
             c = self.ev(t[1])
@@ -160,6 +165,11 @@ class Skel:
         if k == 'seq_rep':
             n = self.ev(t[2])
             return Seq(n if isinstance(n, int) else None)
+        if k == 'seq_lit':
+            return Seq(len(t[1]))
+        if k == 'ext':
+            b, c = self.ev(t[1]), self.ev(t[3])
+            return Seq(b.n + c) if isinstance(b, Seq) and b.n is not None and isinstance(c, int) else Seq(None)
         if k == 'fold':
             init = self.ev(t[3])
             if isinstance(init, Seq):
